@@ -1,6 +1,6 @@
 (* C08: the statements of Properties.v (kept readable here) and an instance showing that the hypotheses are satisfiable. *)
 From Coq Require Import List Arith Lia Setoid Morphisms Ring Bool ZArith.
-From C08 Require Import Model Spec ProofsBasic ProofsKara ProofsDiv ProofsSqr ProofsNewton ProofsRev ProofsDivDeg ProofsGcd ProofsEuclid ProofsPow ProofsInvmod ProofsModin ProofsMid ProofsMisc ProofsMisc2 ProofsPdiv ProofsNormal.
+From C08 Require Import Model Spec ProofsBasic ProofsKara ProofsDiv ProofsSqr ProofsNewton ProofsRev ProofsDivDeg ProofsGcd ProofsEuclid ProofsPow ProofsInvmod ProofsModin ProofsMid ProofsMisc ProofsMisc2 ProofsPdiv ProofsNormal ProofsLcm.
 Import ListNotations.
 
 Section Stmts.
@@ -24,17 +24,16 @@ Definition Karamul_stmt := forall thr P Q, 1 <= thr -> 2 <= length P -> 2 <= len
 (* S5: division.  Full statement (proved): for B <> 0, divmod / divmodin return (Q,R) with A = B*Q + R and deg R < deg B, and
    deg mod(A,B) < deg B - every pair of thresholds >= 1.  (The fast division: reverse, Newton inverse of rev B modulo X^l,
    truncated product, reverse; the proof reindexes the convolution sum of the reversed vectors, ProofsRev.rev_pmul.)
-   DivisionIdentity_stmt keeps the identity alone, which also holds for B = 0 and without the squaring threshold. *)
+   DivisionIdentity_stmt keeps the identity alone without the hypothesis on the squaring threshold.  B <> 0 is a hypothesis of
+   BOTH: the code dereferences the empty reversed divisor (segfault) for B = 0, which the model totalises (dinv 0); a zero divisor is
+   outside the property's domain ("for every non-zero B") and outside the generators. *)
 Definition Division_stmt := forall kthr sthr A B, 1 <= kthr -> 1 <= sthr -> isZero D B = false ->
   (let '(Q, R) := divmod D kthr sthr A B in peq A (add D (pmul B Q) R) /\ (degree D R < degree D B)%Z) /\
   (let '(Q, R) := divmodin D kthr sthr A B in peq A (add D (pmul B Q) R) /\ (degree D R < degree D B)%Z) /\
   (degree D (mod_ D kthr sthr A B) < degree D B)%Z.
-Definition DivisionIdentity_stmt := forall kthr sthr A B, 1 <= kthr ->
+Definition DivisionIdentity_stmt := forall kthr sthr A B, 1 <= kthr -> isZero D B = false ->
   (let '(Q, R) := divmod D kthr sthr A B in peq A (add D (pmul B Q) R)) /\
   (let '(Q, R) := divmodin D kthr sthr A B in peq A (add D (pmul B Q) R)).
-(* S6: Bezout: gcd(F,S0,T0,A,B) returns F = S0*A + T0*B, for all A, B *)
-Definition Bezout_stmt := forall kthr sthr A B, 1 <= kthr ->
-  let '(F, S0, T0) := gcdext D kthr sthr A B in peq F (add D (pmul S0 A) (pmul T0 B)).
 (* S8: the public add(R,P,Q) / sub(R,P,Q) (as repaired: ending in setdegree) return the specification's sum/difference,
    in normal form when the operands are *)
 Definition AddSub_stmt := forall P Q,
@@ -47,30 +46,23 @@ Definition Sqr_stmt := forall kthr sthr P, 1 <= kthr -> 1 <= sthr -> peq (sqr D 
 (* S11: Newton inversion: A * invmodpowx(A,l) = 1 mod X^l for every l and every A with A[0] <> 0 *)
 Definition Newton_stmt := forall kthr sthr A l, 1 <= kthr -> 1 <= sthr -> coef D A 0 <> d0 D ->
   forall k, k < l -> coef D (pmul A (invmodpowx D kthr sthr A l)) k = coef D [d1 D] k.
-(* S12: Euclid.  Full statement: the gcd divides both operands.  Proved (partial): for every run of the extended loop that has
-   reached G = 0 the value it ends on divides both starting polynomials (that the fuel S (length G) suffices needs
-   deg R < deg B, not proved) *)
-Definition GcdDivides_stmt := forall kthr sthr fuel F G S0 S1 T0 T1, 1 <= kthr ->
-  let '(F', G', _, _, _, _) := egcd_loop D kthr sthr fuel F G S0 S1 T0 T1 in
-  isZero D G' = true -> dvd D F' F /\ dvd D F' G.
-(* S13: lcm(F,A,B) is a common multiple of A and B (deg A, deg B >= 1; same proviso on the loop) *)
-Definition LcmMultiple_stmt := forall kthr sthr A B, 1 <= kthr -> (1 <= degree D A)%Z -> (1 <= degree D B)%Z ->
-  isZero D (lcm_loop_G D kthr sthr A B) = true ->
-  dvd D A (lcm D kthr sthr A B) /\ dvd D B (lcm D kthr sthr A B).
 (* S14: the protected squaring on ranges (dynamic choice stdsqr / sqrrec, container of cP entries for the temporary) *)
 Definition SqrRange_stmt := forall fuel kthr sthr cP P, 1 <= kthr -> 1 <= sthr -> 1 <= length P -> length P <= S cP ->
   let R := sqr_r D fuel kthr sthr cP (2 * length P - 1) P in
   length R = (2 * length P - 1)%nat /\ forall i, i < 2 * length P - 1 -> coef D R i = coef D (pmul P P) i.
 (* S15: extended gcd, unconditional: the loop ends within its fuel (deg R < deg B), so F divides A and B, every common divisor
-   divides F, and F = S0*A + T0*B *)
-Definition GcdExt_stmt := forall kthr sthr A B, 1 <= kthr -> 1 <= sthr ->
+   divides F, and F = S0*A + T0*B.  A, B not both zero is a hypothesis: for A = B = 0 the code inverts the leading coefficient of
+   the zero polynomial, which the model totalises (dinv 0); the generators exclude it *)
+Definition GcdExt_stmt := forall kthr sthr A B, 1 <= kthr -> 1 <= sthr -> isZero D A = false \/ isZero D B = false ->
   let '(F, S0, T0) := gcdext D kthr sthr A B in
   is_gcd D F A B /\ peq F (add D (pmul S0 A) (pmul T0 B)).
 (* S16: gcd(G,P,Q) (plain Euclidean loop on mod) returns a greatest common divisor *)
 Definition Gcd_stmt := forall kthr sthr P Q, 1 <= kthr -> 1 <= sthr -> is_gcd D (gcd D kthr sthr P Q) P Q.
-(* S17: lcm, unconditional (deg A, deg B >= 1) *)
+(* S17: lcm (deg A, deg B >= 1) is a LEAST common multiple: a multiple of A and of B, NON-ZERO, and a divisor of every common
+   multiple (new loop invariant: the determinant S0*T1 - S1*T0 of the cofactors stays a non-zero constant) *)
 Definition Lcm_stmt := forall kthr sthr A B, 1 <= kthr -> 1 <= sthr -> (1 <= degree D A)%Z -> (1 <= degree D B)%Z ->
-  dvd D A (lcm D kthr sthr A B) /\ dvd D B (lcm D kthr sthr A B).
+  dvd D A (lcm D kthr sthr A B) /\ dvd D B (lcm D kthr sthr A B) /\ ~ eqv D (lcm D kthr sthr A B) [] /\
+  forall M, dvd D A M -> dvd D B M -> dvd D (lcm D kthr sthr A B) M.
 (* S18: modular inverse: for coprime A, B of degree >= 1, invmod(A,B) * A = 1 mod B *)
 Definition Invmod_stmt := forall kthr sthr A B, 1 <= kthr -> 1 <= sthr -> (1 <= degree D A)%Z -> (1 <= degree D B)%Z ->
   (forall X, dvd D X A -> dvd D X B -> dvd D X [d1 D]) ->
@@ -130,10 +122,12 @@ Definition Pdivmod_stmt := forall A B, isZero D B = false ->
    eqv D (pmul [m] A) (add D (pmul B Q) R) /\ (degree D R < degree D B)%Z /\ exists k, m = dom_pow D (leadcoef D B) k) /\
   (let '(R, m) := pmod D A B in
    (exists K, eqv D (pmul [m] A) (add D (pmul B K) R)) /\ (degree D R < degree D B)%Z /\ exists k, m = dom_pow D (leadcoef D B) k).
-(* S29: results are normalised: every polynomial result of the public operations has no leading zero coefficient (for the forms
-   that hand an operand through - maxpy and the in-place subtracting forms - when that operand is in normal form; add/sub: AddSub_stmt;
-   pow: Pow_stmt; sqr has no final setdegree in the code and is not listed) *)
-Definition NormalResults_stmt := forall kthr sthr e0 (A B C : list T) (v : T) (e : N) (n b l i j : nat),
+(* S29: SHAPE OF THE MODEL, not a property of the code by itself: the MODEL's public operations return lists without a leading zero
+   coefficient.  38 of the 42 conjuncts hold simply because the model function ends in `setdegree` / `assign` (as the C++ body does);
+   only gcd, gcdext, invmod and the forms that hand an operand through (maxpy, the in-place subtracting forms) need an invariant.
+   That the CODE ends in setdegree at the same places is established by the correspondence on the RAW vectors and by the oracle's
+   normal-form check on every case, not by this statement.  (add/sub: AddSub_stmt; pow: Pow_stmt; sqr has no final setdegree.) *)
+Definition ModelResultsNormal_stmt := forall kthr sthr e0 (A B C : list T) (v : T) (e : N) (n b l i j : nat),
   normal D (mul D kthr A B) /\ normal D (stdmul D A B) /\ normal D (karamul D kthr A B) /\ normal D (mulin D kthr A B) /\
   normal D (midmul D kthr A B) /\ normal D (mul_trunc D A B i j) /\
   normal D (div D kthr sthr A B) /\ normal D (fst (divmod D kthr sthr A B)) /\ normal D (snd (divmod D kthr sthr A B)) /\
@@ -148,6 +142,13 @@ Definition NormalResults_stmt := forall kthr sthr e0 (A B C : list T) (v : T) (e
   normal D (add_s D A v) /\ normal D (addin_s D A v) /\ normal D (sub_s D A v) /\ normal D (subin_s D A v) /\ normal D (s_sub D v A) /\
   normal D (mul_s D A v) /\ normal D (div_s D A v) /\ normal D (diff D A) /\ normal D (reverse D A) /\ normal D (power_compose D A b) /\
   normal D (modpowx D A l) /\ normal D (assign D A) /\ normal D (monomial D n v).
+(* S30: the remaining small forms: maxpy(r,a,b,c) with a scalar a (the twelfth fused form), modpowx, div / mod with a scalar DIVIDEND
+   (P in normal form, non-zero: u = P*div + mod, deg mod < deg P) *)
+Definition SmallForms_stmt := forall (a u : T) (b c A P : list T) (l i : nat),
+  coef D (maxpy_s D a b c) i = dsub D (coef D c i) (dmul D a (coef D b i)) /\
+  coef D (modpowx D A l) i = (if (i <? l)%nat then coef D A i else d0 D) /\
+  (normal D P -> P <> [] ->
+   eqv D [u] (add D (pmul P (div_sp D u P)) (mod_sp D u P)) /\ (degree D (mod_sp D u P) < degree D P)%Z).
 (* S7: setdegree keeps the polynomial, returns a normal form, and the zero polynomial is recognised *)
 Definition Normal_stmt := forall P,
   peq (setdegree D P) P /\ normal D (setdegree D P) /\ (isZero D P = true <-> peq P []).
@@ -162,8 +163,8 @@ Definition MidTrunc_stmt := Midmul_stmt D /\ MulTrunc_stmt D.
 Definition DivisionAll_stmt := DivisionIdentity_stmt D /\ Division_stmt D /\ DivmodUnique_stmt D /\ Modin_stmt D.
 Definition Euclid_stmt := GcdExt_stmt D /\ Gcd_stmt D /\ Lcm_stmt D /\ Invmod_stmt D.
 Definition Powers_stmt := Pow_stmt D /\ Powmod_stmt D.
-Definition Linear_stmt := AddSub_stmt D /\ Scalar_stmt D /\ Fused_stmt D.
-Definition NormalDecide_stmt := Normal_stmt D /\ Decide_stmt D /\ NormalResults_stmt D.
+Definition Linear_stmt := AddSub_stmt D /\ Scalar_stmt D /\ Fused_stmt D /\ SmallForms_stmt D.
+Definition NormalDecide_stmt := Normal_stmt D /\ Decide_stmt D /\ ModelResultsNormal_stmt D.
 End Bundles.
 
 Section Lemmas.
@@ -179,11 +180,10 @@ Lemma Stdmul_ok : Stdmul_stmt D. Proof. exact (stdmul_spec D OK). Qed.
 Lemma Karamul_ok : Karamul_stmt D. Proof. exact (karamul_spec D OK). Qed.
 Lemma DivisionIdentity_ok : DivisionIdentity_stmt D.
 Proof.
-  intros kthr sthr A B H. split.
+  intros kthr sthr A B H _. split.
   - pose proof (divmod_identity D OK kthr sthr A B H) as E. destruct (divmod D kthr sthr A B). exact E.
   - pose proof (divmodin_identity D OK kthr sthr A B H) as E. destruct (divmodin D kthr sthr A B). exact E.
 Qed.
-Lemma Bezout_ok : Bezout_stmt D. Proof. exact (gcdext_bezout D OK). Qed.
 Lemma AddSub_ok : AddSub_stmt D.
 Proof.
   intros P Q. split. apply (add_pub_peq D OK). split. apply eqv_peq. apply (sub_pub_eqv D OK).
@@ -192,9 +192,6 @@ Qed.
 Lemma Sqr_ok : Sqr_stmt D. Proof. exact (sqr_spec D OK). Qed.
 Lemma Newton_ok : Newton_stmt D.
 Proof. intros kthr sthr A l Hk Hs HA. exact (invmodpowx_spec D OK kthr sthr Hk Hs A l HA). Qed.
-Lemma GcdDivides_ok : GcdDivides_stmt D.
-Proof. intros kthr sthr fuel F G S0 S1 T0 T1 Hk. exact (egcd_loop_dvd D OK kthr sthr Hk fuel F G S0 S1 T0 T1). Qed.
-Lemma LcmMultiple_ok : LcmMultiple_stmt D. Proof. exact (lcm_common_multiple D OK). Qed.
 Lemma Division_ok : Division_stmt D.
 Proof.
   intros kthr sthr A B Hk Hs HZ. split; [|split].
@@ -211,7 +208,7 @@ Proof.
 Qed.
 Lemma GcdExt_ok : GcdExt_stmt D.
 Proof.
-  intros kthr sthr A B Hk Hs.
+  intros kthr sthr A B Hk Hs _.
   pose proof (gcdext_divides D OK kthr sthr Hk Hs A B) as H1. pose proof (gcdext_bezout D OK kthr sthr A B Hk) as H2.
   destruct (gcdext D kthr sthr A B) as [[F S0] T0]. destruct H1 as [HA HB]. split; [|exact H2].
   split; [exact HA|split; [exact HB|]]. intros X HXA HXB.
@@ -220,7 +217,10 @@ Qed.
 Lemma Gcd_ok : Gcd_stmt D.
 Proof. intros kthr sthr P Q Hk Hs. exact (gcd_is_gcd D OK kthr sthr Hk Hs P Q). Qed.
 Lemma Lcm_ok : Lcm_stmt D.
-Proof. intros kthr sthr A B Hk Hs. exact (lcm_common_multiple_full D OK kthr sthr Hk Hs A B). Qed.
+Proof.
+  intros kthr sthr A B Hk Hs HA HB. destruct (lcm_common_multiple_full D OK kthr sthr Hk Hs A B HA HB) as [H1 H2].
+  destruct (lcm_least D OK kthr sthr Hk Hs A B HA HB) as [H3 H4]. repeat match goal with |- _ /\ _ => split end; assumption.
+Qed.
 Lemma Invmod_ok : Invmod_stmt D.
 Proof. intros kthr sthr A B Hk Hs. exact (invmod_spec D OK kthr sthr Hk Hs A B). Qed.
 Lemma Modin_ok : Modin_stmt D.
@@ -251,7 +251,7 @@ Proof.
 Qed.
 Lemma Pdivmod_ok : Pdivmod_stmt D.
 Proof. intros A B HZ. split. apply (pdivmod_spec D OK A B HZ). apply (pmod_spec D OK A B HZ). Qed.
-Lemma NormalResults_ok : NormalResults_stmt D.
+Lemma ModelResultsNormal_ok : ModelResultsNormal_stmt D.
 Proof.
   intros kthr sthr e0 A B C v e n b l i j.
   pose proof (divmod_n D OK kthr sthr A B) as [H1 H2]. pose proof (divmodin_n D OK kthr sthr A B) as [H3 H4].
@@ -274,8 +274,12 @@ Lemma DivisionAll_ok : DivisionAll_stmt D.
 Proof. split; [exact DivisionIdentity_ok|split; [exact Division_ok|split; [exact DivmodUnique_ok|exact Modin_ok]]]. Qed.
 Lemma Euclid_ok : Euclid_stmt D. Proof. split; [exact GcdExt_ok|split; [exact Gcd_ok|split; [exact Lcm_ok|exact Invmod_ok]]]. Qed.
 Lemma Powers_ok : Powers_stmt D. Proof. split; [exact Pow_ok|exact Powmod_ok]. Qed.
-Lemma Linear_ok : Linear_stmt D. Proof. split; [exact AddSub_ok|split; [exact Scalar_ok|exact Fused_ok]]. Qed.
-Lemma NormalDecide_ok : NormalDecide_stmt D. Proof. split; [exact Normal_ok|split; [exact Decide_ok|exact NormalResults_ok]]. Qed.
+Lemma SmallForms_ok : SmallForms_stmt D.
+Proof.
+  intros a u b c A P l i. split. apply (maxpy_s_spec D OK). split. apply (modpowx_spec D OK). intros NP HP. apply (div_mod_sp_spec D OK); assumption.
+Qed.
+Lemma Linear_ok : Linear_stmt D. Proof. split; [exact AddSub_ok|split; [exact Scalar_ok|split; [exact Fused_ok|exact SmallForms_ok]]]. Qed.
+Lemma NormalDecide_ok : NormalDecide_stmt D. Proof. split; [exact Normal_ok|split; [exact Decide_ok|exact ModelResultsNormal_ok]]. Qed.
 End Lemmas.
 
 (* the hypotheses are satisfiable: GF(2) on bool *)
@@ -321,3 +325,25 @@ Example GF2_midmul_run :        (* (1 + X + X^2)(1 + X) = 1 + X^3: the middle co
 Proof. split; reflexivity. Qed.
 Example GF2_midmul_instance : Midmul_stmt GF2Dom.
 Proof. exact (Midmul_ok GF2Dom GF2_ok). Qed.
+Example GF2_lcm_run :           (* lcm(X + 1, X^2 + 1) = X^2 + 1 in both operand orders; the degree hypotheses hold *)
+  lcm GF2Dom 1 1 [true; true] [true; false; true] = [true; false; true] /\ lcm GF2Dom 1 1 [true; false; true] [true; true] = [true; false; true] /\
+  (1 <= degree GF2Dom [true; true])%Z /\ (1 <= degree GF2Dom [true; false; true])%Z.
+Proof. repeat split; try reflexivity; cbv; discriminate. Qed.
+Example GF2_pdivmod_run : pdivmod GF2Dom [true; true; false; true] [true; true] = ([false; true; true], [true], true).
+Proof. reflexivity. Qed.
+Example GF2_coprime_hyp :       (* the coprimality hypothesis of Invmod_stmt is satisfiable: X and X^2 + X + 1 *)
+  forall X, dvd GF2Dom X [false; true] -> dvd GF2Dom X [true; true; true] -> dvd GF2Dom X [true].
+Proof.
+  intros X [K1 H1] [K2 H2].
+  (* 1 = (X^2 + X + 1) + (X + 1) * X *)
+  exists (add GF2Dom K2 (pmul GF2Dom [true; true] K1)).
+  destruct H1 as [H1]. destruct H2 as [H2]. constructor. intros i.
+  rewrite (pmul_distr_l GF2Dom GF2_ok K2 (pmul GF2Dom [true; true] K1) X i), (coef_add GF2Dom GF2_ok).
+  rewrite <- (H2 i), <- (pmul_assoc GF2Dom GF2_ok [true; true] K1 X i).
+  rewrite (pmul_proper_r GF2Dom GF2_ok [true; true] (pmul GF2Dom K1 X) [false; true] (fun j => eq_sym (H1 j)) i).
+  destruct i as [|[|[|[|i]]]]; reflexivity.
+Qed.
+Example GF2_sqr_range_hyp : 1 <= length [true; true] /\ length [true; true] <= S 1 /\ sqr_r GF2Dom 1 1 1 1 3 [true; true] = [true; false; true].
+Proof. repeat split; cbn; lia. Qed.
+Example GF2_newton_hyp : coef GF2Dom [true; true] 0 <> d0 GF2Dom /\ invmodpowx GF2Dom 1 1 [true; true] 3 = [true; true; true].
+Proof. split. cbn. discriminate. reflexivity. Qed.
